@@ -1,112 +1,119 @@
 """C02 — vcheck configuration (PROP) and MANIFEST claim (CHECK)."""
-PROP = {
-    'module': 'UmProps.C02',
-    'gen_modules': ['Consts', 'CmdTables', 'ChunkTables', 'ProtoConsts'],
-    'streams': [{'name': 'route', 'harness': 'umh_route', 'driver': 'route',
-                 'timeout': {'quick': 600, 'thorough': 3000}}],
-    'assumptions': [
-        'long-lived proxies: within a case the same real MetaManagers receive every SETCLUSTER of the broker history '
-        '(epoch-increasing: balance_masters during a migration at every gate level, commit of one of two concurrent '
-        'migrations while the other runs, failover during a migration with the failed process killed, commit rounds); '
-        'after every re-sync one key per slot class (both ends of every range of the view) is routed from every proxy. '
-        'Model side: C02_install_last_only / C02_install_seq_last_only / C02_route_last_only — the installed routing '
-        'state is a function of the last accepted metadata, only the phases of tasks with an unchanged key carry over',
-        'C02_stable_reachable / C02_migrating_reachable / C02_no_third_node_reachable: every operation list whose prefixes '
-        'satisfy C01\'s size bound PlanBound (<= 16384 masters per cluster), every cluster found by name, every migration '
-        'limit; SyncedWith = every proxy address of the stored cluster is reachable and has Installed a meta WireFaithful to '
-        'encodeFor of what proxyView (get_proxy_by_address) serves for it. ViewOk is derived: PartitionView from C01 '
-        '(cinv_run, limitMigration_spec, partitionView_viewP), one peer entry per proxy and proxy-address uniqueness from '
-        'C12_accounting (ResInv) + proxy_peers_nodup, compacted pending ranges below 16384 from SlotInv + PartitionView. '
-        'Explicit hypotheses that are not broker invariants: name != "" (ClusterName::try_from("") succeeds at the store '
-        'API; validName name only ties v to the query), NodesDistinct cl (the two node addresses of every proxy of the '
-        'cluster differ: F02a), and for a slot under migration srcProxy != dstProxy (no store invariant says that a '
-        'migration connects halves on different proxies)',
-        'ViewOk v: the whole-cluster view is a C01 PartitionView with a non-empty cluster name, the master nodes '
-        'placed on one proxy have pairwise distinct addresses (add_proxy does not check the two node addresses of a '
-        'proxy), every proxy view lists each peer proxy once (C01 proxy_peers_nodup), and pending range lists are in '
-        'compact normal form below 16384 (C01 SlotInv). The lead connects it to reachable broker states; the worked '
-        'example exView satisfies it (exViewOk)',
-        'Synced: every proxy hosting a node of the view is reachable under its address and has Installed a meta that '
-        'is WireFaithful to encodeFor of its own current view; WireFaithful is discharged from C17 by '
-        'C02_wire_plain (under WfMeta of the emitted meta) and C02_wire_compressed (for any lossless Codec, '
-        'under hcmp: the range lists are fixed points of the compaction the proxy applies to the decoded blob since '
-        '/repo 23e5d8f — what the broker serves by SlotInv), '
-        'Installed from an accepted set_meta by C02_install',
-        'active redirection off: the hop bounds are MOVED replies seen by the client',
-        'slot under migration: source proxy != destination proxy (not implied by PartitionView; with both tasks on one '
-        'proxy MigrationMap::send would pick whichever task the HashMap visits first) and a phase triple (source task '
-        'state, source node blocking, destination task state) produced by the PRECHECK/PRESWITCH/FINALSWITCH handshake '
-        'without timeouts: the 8 state pairs of Consistent, proved to be exactly the reachable set of the transition '
-        'system Reach read off scan_task.rs (C02_phase_pairs). No stale handshake request is handled after the source '
-        'left the phase that sent it',
-        'a command for a node whose blocking controller is active is queued (held) and re-sent through '
-        'loop_send_cmd_ctx at release; "executed at the source before the switch" therefore reads "executed at or '
-        'queued for the source node", and in the switching window (PreSwitch, PreSwitch) the source still queues',
-        'HashMap iteration orders (node maps, peer maps, task map) are arbitrary: theorems hold for every visiting '
-        'order; the harness reports the MOVED targets the implementation chose and the driver only uses them to pick '
-        'among the listers of an overlapping peer map',
-        'the importing handler (RestoreDataCmdTaskHandler) delivers the command to dst_node_address (fake backends '
-        'answer EXISTS with 1, so no key is pulled); its Retry path (handler stopped) is not modelled',
-    ],
-    'gaps': [
-        'C02_stable / C02_migrating assume AddrOk (distinct node addresses per proxy). The statement over *all* reachable '
-        'broker states is false of the code: add_proxy accepts equal node addresses and a proxy hosting both masters '
-        'then loses one master\'s ranges in the SETCLUSTER HashMap (proved negation C02_full_false_dup_node_address, '
-        'KNOWN-FINDING F02a, replay corpus/C02/route.f02a.ops, proposed fix .build/patches/f02a.diff)',
-        'the (PreBlocking, PreCheck) pair is proved but not driven through the real code (the harness cannot hold '
-        'blocking_done; routing at the source is the same code path as PreSwitch)',
-        'timeout paths are outside Consistent: max_blocking_time expiry leads to (FinalSwitch, PreCheck), where source '
-        'and destination proxy redirect to each other until FINALSWITCH is acknowledged (C02_inconsistent_pingpong; '
-        'reproduced on the real code by corpus/C02/route.forced.ops and the forced_path generator class); '
-        'max_migration_time expiry can commit the destination while the source still serves',
-        'check_hosts of set_meta is modelled (NOT_MY_META) but its exclusion is C05; UMFORWARD / active redirection '
-        'on is modelled in routeWithMigration but no theorem is stated for it',
-        'srcProxy != dstProxy is not derived: PosInv/TwinInv/ResInv do not exclude a migration between the two halves of '
-        'one chunk whose masters sit on one proxy (role First/Second); it follows whenever srcChunk != dstChunk or the '
-        'chunk is in role Normal, but no invariant states that the planner only produces such migrations',
-    ],
-    'trusted': [
-        'harness in-memory network (NetClientFactory: delivers UMCTL commands to the addressed real ForwardHandler, '
-        'gates handshake requests/replies and SCAN by level) and fake Redis backends (reply = own address)',
-        'the broker model and its driver parser (shared with the broker stream); renaming of proxy indices in replays',
-    ],
-}
+PROP = {'module': 'UmProps.C02',
+ 'gen_modules': ['Consts', 'CmdTables', 'ChunkTables', 'ProtoConsts'],
+ 'streams': [{'name': 'route',
+              'harness': 'umh_route',
+              'driver': 'route',
+              'timeout': {'quick': 600, 'thorough': 3000}}],
+ 'assumptions': ['long-lived proxies: within a case the same real MetaManagers receive every SETCLUSTER of the '
+                 'broker history (epoch-increasing: balance_masters during a migration at every gate level, commit '
+                 'of one of two concurrent migrations while the other runs, failover during a migration with the '
+                 'failed process killed, commit rounds); after every re-sync one key per slot class (both ends of '
+                 'every range of the view) is routed from every proxy. Model side: C02_install_last_only / '
+                 'C02_install_seq_last_only / C02_route_last_only — the installed routing state is a function of the '
+                 'last accepted metadata, only the phases of tasks with an unchanged key carry over',
+                 'C02_stable_reachable / C02_migrating_reachable / C02_no_third_node_reachable: every operation list '
+                 "whose prefixes satisfy C01's size bound PlanBound (<= 16384 masters per cluster), every cluster "
+                 'found by name, every migration limit; SyncedWith = every proxy address of the stored cluster is '
+                 'reachable and has Installed a meta WireFaithful to encodeFor of what proxyView '
+                 '(get_proxy_by_address) serves for it. ViewOk is derived: PartitionView from C01 (cinv_run, '
+                 'limitMigration_spec, partitionView_viewP), one peer entry per proxy and proxy-address uniqueness '
+                 'from C12_accounting (ResInv) + proxy_peers_nodup, compacted pending ranges below 16384 from '
+                 'SlotInv + PartitionView, distinct node addresses per proxy from C02_nodes_distinct_reachable '
+                 '(every registered proxy of every reachable store has node0 != node1: add_proxy refuses equal node '
+                 'addresses since /repo bf43b2d, the fix of F02a, and is the only operation that registers a proxy; '
+                 "proved over all Ops in UmProofs/RouteE2ENodes.lean with C12's outcome characterisations). Explicit "
+                 'hypotheses that are not broker invariants: name != "" (ClusterName::try_from("") succeeds at the '
+                 'store API; validName name only ties v to the query) and, for a slot under migration, srcProxy != '
+                 'dstProxy (no store invariant says that a migration connects halves on different proxies)',
+                 'ViewOk v (view-level theorems C02_stable / C02_migrating / C02_no_third_node): a C01 PartitionView '
+                 'with a non-empty cluster name, pairwise distinct addresses of the master nodes placed on one '
+                 'proxy, one peer entry per proxy, pending range lists in compact normal form below 16384; all but '
+                 'the non-empty name are discharged for reachable broker states in the *_reachable forms; the worked '
+                 'example exView satisfies it (exViewOk)',
+                 'Synced: every proxy hosting a node of the view is reachable under its address and has Installed a '
+                 'meta that is WireFaithful to encodeFor of its own current view; WireFaithful is discharged from '
+                 'C17 by C02_wire_plain (under WfMeta of the emitted meta) and C02_wire_compressed (for any lossless '
+                 'Codec, under hcmp: the range lists are fixed points of the compaction the proxy applies to the '
+                 'decoded blob since /repo 23e5d8f — what the broker serves by SlotInv), Installed from an accepted '
+                 'set_meta by C02_install',
+                 'active redirection off: the hop bounds are MOVED replies seen by the client',
+                 'slot under migration: source proxy != destination proxy (not implied by PartitionView; with both '
+                 'tasks on one proxy MigrationMap::send would pick whichever task the HashMap visits first) and a '
+                 'phase triple (source task state, source node blocking, destination task state) produced by the '
+                 'PRECHECK/PRESWITCH/FINALSWITCH handshake without timeouts: the 8 state pairs of Consistent, proved '
+                 'to be exactly the reachable set of the transition system Reach read off scan_task.rs '
+                 '(C02_phase_pairs). No stale handshake request is handled after the source left the phase that sent '
+                 'it',
+                 'a command for a node whose blocking controller is active is queued (held) and re-sent through '
+                 'loop_send_cmd_ctx at release; "executed at the source before the switch" therefore reads "executed '
+                 'at or queued for the source node", and in the switching window (PreSwitch, PreSwitch) the source '
+                 'still queues',
+                 'HashMap iteration orders (node maps, peer maps, task map) are arbitrary: theorems hold for every '
+                 'visiting order; the harness reports the MOVED targets the implementation chose and the driver only '
+                 'uses them to pick among the listers of an overlapping peer map',
+                 'the importing handler (RestoreDataCmdTaskHandler) delivers the command to dst_node_address (fake '
+                 'backends answer EXISTS with 1, so no key is pulled); its Retry path (handler stopped) is not '
+                 'modelled'],
+ 'gaps': ['finding F02a (equal node addresses of one proxy) is fixed in /repo bf43b2d; '
+          'C02_why_add_proxy_refuses_equal_nodes keeps the hand-built witness (a PartitionView on which a fully '
+          'synced proxy answers "slot not covered") as the reason for the check, corpus/C02/route.f02a.ops and the '
+          'generator class dup_node_address_refused_then_failover are the regression (registration refused, same '
+          'layout with distinct addresses routes every slot); the oracle excuses nothing',
+          'the (PreBlocking, PreCheck) pair is proved but not driven through the real code (the harness cannot hold '
+          'blocking_done; routing at the source is the same code path as PreSwitch)',
+          'timeout paths are outside Consistent: max_blocking_time expiry leads to (FinalSwitch, PreCheck), where '
+          'source and destination proxy redirect to each other until FINALSWITCH is acknowledged '
+          '(C02_inconsistent_pingpong; reproduced on the real code by corpus/C02/route.forced.ops and the '
+          'forced_path generator class); max_migration_time expiry can commit the destination while the source still '
+          'serves',
+          'check_hosts of set_meta is modelled (NOT_MY_META) but its exclusion is C05; UMFORWARD / active '
+          'redirection on is modelled in routeWithMigration but no theorem is stated for it',
+          'srcProxy != dstProxy is not derived: PosInv/TwinInv/ResInv do not exclude a migration between the two '
+          'halves of one chunk whose masters sit on one proxy (role First/Second); it follows whenever srcChunk != '
+          'dstChunk or the chunk is in role Normal, but no invariant states that the planner only produces such '
+          'migrations'],
+ 'trusted': ['harness in-memory network (NetClientFactory: delivers UMCTL commands to the addressed real '
+             'ForwardHandler, gates handshake requests/replies and SCAN by level) and fake Redis backends (reply = '
+             'own address)',
+             'the broker model and its driver parser (shared with the broker stream); renaming of proxy indices in '
+             'replays']}
 
-CHECK = {
-    'design_ref': '§6 C02, Appendix A (coordinator/wire, proxy)',
-    'technique': 'Lean 4 theorems over every PartitionView, every slot, every start proxy, every HashMap order, both '
-                 'encodings + differential correspondence end to end: real MetaStore histories → real '
-                 'get_proxy_by_address → real ProxyMetaRespSender::send_meta (SETREPL+SETCLUSTER, plain and compressed) '
-                 '→ real ForwardHandler/MetaManager per proxy with real migration tasks driven through the real '
-                 'UMCTL PRECHECK/PRESWITCH/FINALSWITCH handlers → client following MOVED; the Lean side runs the broker '
-                 'model, proxyView, encodeFor, the C17 wire model, setMeta and routeWithMigration on the same op lines',
-    'text': 'Proved: the coordinator sends proxy a exactly the slot ranges (tags kept, importing ranges included) of the '
-            'masters placed on a, keyed by node address, and those of the masters elsewhere keyed by proxy address; '
-            'slot-less masters vanish in the plain encoding only; both encodings are parsed to the generated meta up to '
-            'group order (from C17); an accepted SETCLUSTER installs it whatever was served before. For every view '
-            'satisfying ViewOk and every cluster in which each proxy serves its own current view: a slot no pending '
-            'range covers has exactly one covering master range and every start proxy reaches that master\'s node at '
-            'that master\'s proxy within 1 MOVED (C02_stable; C02_stable_reachable / C02_migrating_reachable / '
-            'C02_no_third_node_reachable restate all three over every bounded run of the broker model, every cluster and '
-            'every migration limit, with the proxies synced to what proxyView serves); a slot under migration is covered by exactly the '
-            'migrating-out range on the source master and its importing twin on the destination master, both proxies '
-            'hold a task for it, and for each of the 8 handshake phase pairs every start proxy (source, destination, '
-            'bystander) ends within 2 MOVED at the source node before the destination has switched and at the '
-            'destination node after (queued at the source while it is blocking) (C02_migrating); whatever the phases, '
-            'a synced proxy executes or queues a command only on a master placed on itself that shows a range covering '
-            'the slot — owner, migration source or destination (C02_no_third_node). The phase enumeration is exact for '
-            'the handshake transition system (C02_phase_pairs); outside it the (FinalSwitch, PreCheck) pair of the '
-            'max_blocking_time path makes source and destination redirect to each other (C02_inconsistent_pingpong), '
-            'reproduced on the real code. KNOWN-FINDING F02a: add_proxy accepts two equal node addresses; such a proxy '
-            'hosting both masters after a failover answers "slot not covered" for half of the slots although every proxy is '
-            'synced (C02_full_false_dup_node_address; generator class dup_node_address_failover). Every run replays >= 24 store histories (scale-out, commit, failover, '
-            'failover mid-migration, scale-down, migration limit, forced path) through the real stack on long-lived '
-            'proxies that re-apply the metadata of every later broker state (balance_masters / commit of one of two '
-            'migrations / failover while tasks run: C02_install_last_only, C02_route_last_only), walks the '
-            'handshake through 7 gate levels, follows >= 18 000 client runs (one sweep of all 16384 slots) and compares '
-            'every reply kind, MOVED target, executing node, task state and SETCLUSTER reply with the model.',
-    'note': 'Trusted: Lean kernel; generated tables; the harness network and fake backends; broker model (tied by the '
-            'broker stream). Hypotheses left to the lead: ViewOk from reachable broker states, srcProxy != dstProxy. '
-            'Not covered: active redirection, timeout paths (stated as a proved ping-pong witness), PreBlocking on the '
-            'real code.',
-}
+CHECK = {'design_ref': '§6 C02, Appendix A (coordinator/wire, proxy)',
+ 'technique': 'Lean 4 theorems over every PartitionView, every slot, every start proxy, every HashMap order, both '
+              'encodings + differential correspondence end to end: real MetaStore histories → real '
+              'get_proxy_by_address → real ProxyMetaRespSender::send_meta (SETREPL+SETCLUSTER, plain and compressed) '
+              '→ real ForwardHandler/MetaManager per proxy with real migration tasks driven through the real UMCTL '
+              'PRECHECK/PRESWITCH/FINALSWITCH handlers → client following MOVED; the Lean side runs the broker '
+              'model, proxyView, encodeFor, the C17 wire model, setMeta and routeWithMigration on the same op lines',
+ 'text': 'Proved: the coordinator sends proxy a exactly the slot ranges (tags kept, importing ranges included) of '
+         'the masters placed on a, keyed by node address, and those of the masters elsewhere keyed by proxy address; '
+         'slot-less masters vanish in the plain encoding only; both encodings are parsed to the generated meta up to '
+         'group order (from C17); an accepted SETCLUSTER installs it whatever was served before. For every view '
+         'satisfying ViewOk and every cluster in which each proxy serves its own current view: a slot no pending '
+         "range covers has exactly one covering master range and every start proxy reaches that master's node at "
+         "that master's proxy within 1 MOVED (C02_stable; C02_stable_reachable / C02_migrating_reachable / "
+         'C02_no_third_node_reachable restate all three over every bounded run of the broker model, every cluster '
+         'and every migration limit, with the proxies synced to what proxyView serves); a slot under migration is '
+         'covered by exactly the migrating-out range on the source master and its importing twin on the destination '
+         'master, both proxies hold a task for it, and for each of the 8 handshake phase pairs every start proxy '
+         '(source, destination, bystander) ends within 2 MOVED at the source node before the destination has '
+         'switched and at the destination node after (queued at the source while it is blocking) (C02_migrating); '
+         'whatever the phases, a synced proxy executes or queues a command only on a master placed on itself that '
+         'shows a range covering the slot — owner, migration source or destination (C02_no_third_node). The phase '
+         'enumeration is exact for the handshake transition system (C02_phase_pairs); outside it the (FinalSwitch, '
+         'PreCheck) pair of the max_blocking_time path makes source and destination redirect to each other '
+         '(C02_inconsistent_pingpong), reproduced on the real code. F02a (add_proxy accepted two equal node '
+         'addresses; such a proxy hosting both masters after a failover answered "slot not covered" for half of the '
+         'slots) was found by this check and is fixed in /repo bf43b2d; the invariant "every registered proxy has '
+         'two different node addresses" is now proved over all broker operations (C02_nodes_distinct_reachable) and '
+         'discharges that hypothesis in the reachable forms. Every run replays >= 24 store histories (scale-out, '
+         'commit, failover, failover mid-migration, scale-down, migration limit, forced path) through the real stack '
+         'on long-lived proxies that re-apply the metadata of every later broker state (balance_masters / commit of '
+         'one of two migrations / failover while tasks run: C02_install_last_only, C02_route_last_only), walks the '
+         'handshake through 7 gate levels, follows >= 18 000 client runs (one sweep of all 16384 slots) and compares '
+         'every reply kind, MOVED target, executing node, task state and SETCLUSTER reply with the model.',
+ 'note': 'Trusted: Lean kernel; generated tables; the harness network and fake backends; broker model (tied by the '
+         'broker stream). Hypotheses left to the lead: ViewOk from reachable broker states, srcProxy != dstProxy. '
+         'Not covered: active redirection, timeout paths (stated as a proved ping-pong witness), PreBlocking on the '
+         'real code.'}
